@@ -1,10 +1,24 @@
 """C08 — fit statistics and evidence follow their definitions on unmasked pixels only."""
 from __future__ import annotations
 
+import json
 import math
+import os
 from fractions import Fraction
 
+# one BLAS thread: the large-inversion cases (hundreds to ~2000 parameters) call LAPACK, and a multi-threaded
+# OpenBLAS on a loaded machine is 100-1000x slower than a single thread at these sizes
+for _v in ("OPENBLAS_NUM_THREADS", "OMP_NUM_THREADS", "MKL_NUM_THREADS"):
+    os.environ.setdefault(_v, "1")
+
 import numpy as np
+
+try:
+    import threadpoolctl as _tpc
+
+    _BLAS_LIMIT = _tpc.threadpool_limits(limits=1)
+except Exception:  # pragma: no cover
+    _BLAS_LIMIT = None
 
 import gen
 from common import PropertyCheck, load_autoarray, mask_json, q, qlist, qmat
@@ -14,6 +28,10 @@ MAP_KEYS = ["data", "residual_map", "normalized_residual_map", "chi_squared_map"
             "residual_flux_fraction_map", "signal_to_noise_map"]
 
 _classes = {}
+
+
+class _UserFault(RuntimeError):
+    """raised by the harness' own user-side model_data (history stream)."""
 
 
 def _fit_classes(aa):
@@ -81,7 +99,19 @@ def _fit_classes(aa):
         def reconstruction(self):
             return self._s
 
-    _classes.update(FitI=FitI, FitD=FitD, Inv=Inv)
+    class FitFault(FitI):
+        """a user fit whose model_data raises on its k-th access (history stream: fault, then reuse)."""
+        _raise_at = 0
+        _reads = 0
+
+        @property
+        def model_data(self):
+            self._reads += 1
+            if self._reads == self._raise_at:
+                raise _UserFault("model_data unavailable")
+            return self._model_data
+
+    _classes.update(FitI=FitI, FitD=FitD, Inv=Inv, FitFault=FitFault)
     return _classes
 
 
@@ -93,11 +123,41 @@ def _f(x):
     return float(Fraction(x))
 
 
-def _close(a, b, tol=TOL):
+def _flt(x):
+    """float of an observation entry ("p/q" string, "inf" / "-inf" / "nan", number)."""
+    if isinstance(x, str) and x in ("inf", "-inf", "nan"):
+        return float(x)
+    return float(Fraction(x))
+
+
+def _close(a, b, tol=TOL, scale=0.0):
+    """|a-b| <= 1e-9 max(1,|a|,|b|); `scale` (large-case oracle only): magnitude of the terms a composite
+    quantity is a signed sum of, so cancellation between exactly-defined terms is not held against the code."""
     a, b = float(a), float(b)
     if a != a or b != b or abs(a) == float("inf") or abs(b) == float("inf"):
         return False
-    return abs(a - b) <= tol * max(1.0, abs(a), abs(b))
+    return abs(a - b) <= tol * max(1.0, abs(a), abs(b), abs(float(scale)))
+
+
+def _digest(got, want, pos=None):
+    """vectorised element-wise check of a large reported array against its definition: None when every entry
+    (at positions `pos` of `got`) is within 1e-9 max(1,|.|) of `want`, else [index, got, want] of the first
+    offender.  Keeps large observations small."""
+    got = np.asarray(got, dtype=float).ravel()
+    want = np.asarray(want, dtype=float).ravel()
+    if pos is not None:
+        if got.size and len(pos) and int(np.max(pos)) >= got.size:
+            return [-1, f"{got.size} entries", f">{int(np.max(pos))} expected"]
+        got = got[pos]
+    if got.shape != want.shape:
+        return [-1, f"{got.size} entries", f"{want.size} entries"]
+    with np.errstate(all="ignore"):
+        tol = TOL * np.maximum(1.0, np.maximum(np.abs(got), np.abs(want)))
+        bad = ~(np.abs(got - want) <= tol)      # NaN / inf compare False -> bad
+    if not bad.any():
+        return None
+    i = int(np.argmax(bad))
+    return [i, repr(float(got[i])), repr(float(want[i]))]
 
 
 def _exact_logdet(M):
@@ -158,7 +218,8 @@ class C08(PropertyCheck):
     rtol = Fraction(1, 10 ** 9)
     nontrivial_rule = (
         "a case is non-trivial when its mask has both masked and unmasked pixels or it carries an "
-        "inversion; distinct = distinct (mask, arrays, mode, fit class, background, inversion)"
+        "inversion; distinct = distinct (mask, arrays, mode, fit class, background, inversion); every large-scale "
+        "recipe and every history (>= 2 steps on reused objects) counts as non-trivial"
     )
     exhaustive_note = {
         "quick": "every mask with >=1 unmasked pixel for every shape with H*W <= 6, in the masked-native and the slim mode",
@@ -348,6 +409,17 @@ class C08(PropertyCheck):
                 "background": q(bg), "inversion": inv, "feed": self._feed(rng, ints, mode, bg, inv)}
 
     def generate(self, tier, rng):
+        if tier != "quick":
+            # round-4 streams first: escalated quick runs and the failing-input search cut the thorough
+            # generator by time
+            yield from self._big_stream(tier, rng)
+            yield from self._hist_stream(tier, rng)
+        yield from self._generate_small(tier, rng)
+        if tier == "quick":
+            yield from self._big_stream(tier, rng)
+            yield from self._hist_stream(tier, rng)
+
+    def _generate_small(self, tier, rng):
         cells = 6 if tier == "quick" else 9
         # 1. exhaustive masks, both evaluation modes, no inversion
         for (h, w) in gen.shapes_upto(cells):
@@ -409,14 +481,168 @@ class C08(PropertyCheck):
         case["inversion"] = {"kind": "real", "style": style, "objs": objs}
         return case
 
+    # ---- generators of the large / extreme-scale stream
+    @staticmethod
+    def _frame_for(npix):
+        """a non-square frame with exactly npix pixels (largest divisor <= sqrt; 1 x npix for primes)."""
+        d = int(math.isqrt(npix))
+        while d > 1 and npix % d:
+            d -= 1
+        if d * d == npix and d > 2:            # perfect square: prefer a non-square factorisation if any
+            for e in range(d - 1, 1, -1):
+                if npix % e == 0:
+                    d = e
+                    break
+        return (d, npix // d)
+
+    def _big_case(self, rng, tag, h, w, mode, unmasked=None, inv=None, noise_exp=0, data_exp=0, bg=None,
+                  fit_cls="imaging", noise_mixed=False):
+        n = h * w
+        if unmasked is None or unmasked >= n:
+            mk = {"kind": "all"}
+            unmasked = n
+        else:
+            mk = self._run_mask_recipe(n, unmasked, start_frac=rng.choice([0.0, 0.37, 0.5, 1.0]))
+        if bg is None:
+            bg = Fraction(rng.randint(-32, 32), 8) * Fraction(2) ** data_exp if rng.random() < 0.6 else Fraction(0)
+        return {"tag": tag, "kind": "big", "h": h, "w": w, "mask": mk, "seed": rng.randrange(1 << 30), "mode": mode,
+                "fit_cls": fit_cls, "background": q(bg), "noise_exp": noise_exp, "data_exp": data_exp,
+                # mixed-sign log terms only where the summation-order effect stays far inside 1e-9
+                "noise_mixed": bool(noise_mixed and unmasked <= 4096 and noise_exp == 0), "inv": inv}
+
+    def _big_inv(self, rng, n_reg, style, f_exp=0, h_exp=0, s_exp=0, n_objs=None):
+        """inversion recipe with n_reg regularized parameters.  style: single | two | partial_first |
+        partial_mid | partial_last | many (n_objs objects)."""
+        if style == "single":
+            params, flags = [n_reg], [True]
+        elif style == "two":
+            a = max(1, n_reg // 3)
+            params, flags = [a, n_reg - a], [True, True]
+        elif style in ("partial_first", "partial_mid", "partial_last"):
+            a = max(1, n_reg // 2)
+            u = rng.randint(1, 4)
+            blocks = [(a, True), (max(1, n_reg - a), True)] if n_reg > 1 else [(1, True)]
+            pos = {"partial_first": 0, "partial_mid": 1, "partial_last": len(blocks)}[style]
+            blocks.insert(pos, (u, False))
+            params, flags = [b[0] for b in blocks], [b[1] for b in blocks]
+        else:  # many objects, 1..3 parameters each, ~1/4 unregularized
+            k = n_objs or max(2, n_reg // 2)
+            params, flags, left = [], [], n_reg
+            for j in range(k):
+                rem = k - j
+                p = left if rem == 1 else max(1, min(left - (rem - 1), rng.randint(1, 3)))
+                params.append(p)
+                flags.append(True)
+                left -= p
+            for _ in range(max(1, k // 4)):
+                i = rng.randrange(len(params) + 1)
+                params.insert(i, rng.randint(1, 2))
+                flags.insert(i, False)
+        return {"params": params, "reg": flags, "f_exp": f_exp, "h_exp": h_exp, "s_exp": s_exp,
+                "rank": rng.randint(3, 8), "ridge": rng.randint(1, 3)}
+
+    BIG_FRAMES = [(64, 48), (61, 67), (7, 600), (1, 4099), (181, 183), (257, 256), (300, 233), (4, 9)]
+    BIG_EXPS = [(0, 0), (12, 12), (-12, -12), (40, 40), (-40, -40), (20, -20), (-20, 20)]
+    BIG_NREG = [48, 130, 300, 700, 1100]
+    BIG_STYLES = ["single", "two", "partial_first", "partial_mid", "partial_last", "many"]
+
+    def _big_stream(self, tier, rng):
+        """always-on part (no size hint needed): frames from 36 to ~70 000 pixels (beyond the int16 / uint16
+        limits), noise / data magnitudes 2^-40..2^40, inversions with 48..1100 regularized parameters and
+        F, H magnitudes 2^-40..2^40 in every object layout."""
+        modes = ["native", "slim", "slim_applied"]
+        nexps = [0, -12, 12, -40, 40]
+        reps = 1 if tier == "quick" else 3
+        k = 0
+        for rep in range(reps):
+            for (h, w) in self.BIG_FRAMES:
+                n = h * w
+                mode = modes[k % 3]
+                if mode == "slim_applied" and n > 20000:
+                    mode = "slim"          # apply_mask on very large frames is slow in pure Python
+                un = None if k % 4 == 3 else n - max(2, n // rng.choice([3, 5, 11]))
+                inv = None
+                if k % 2 == 1:
+                    inv = self._big_inv(rng, rng.choice([5, 23, 60]), rng.choice(self.BIG_STYLES),
+                                        *rng.choice(self.BIG_EXPS))
+                yield self._big_case(rng, f"big_frame_{mode}", h, w, mode, un, inv, noise_exp=nexps[k % 5],
+                                     data_exp=[0, 20, -20][k % 3], noise_mixed=(k % 5 == 0),
+                                     fit_cls="dataset" if k % 7 == 6 else "imaging")
+                k += 1
+        combos = [(n, e) for n in self.BIG_NREG for e in self.BIG_EXPS]
+        if tier == "quick":
+            # every size and every magnitude pair at least twice, the largest sizes with every pair
+            pick = [c for i, c in enumerate(combos) if c[0] >= 700 or (i % 3 == rng.randrange(3)) or c[1] == (0, 0)]
+        else:
+            pick = combos * 2
+        for j, (n_reg, (fe, he)) in enumerate(pick):
+            style = self.BIG_STYLES[(j + n_reg) % len(self.BIG_STYLES)]
+            inv = self._big_inv(rng, n_reg, style, fe, he, s_exp=rng.choice([0, 0, 10, -10]))
+            h, w = rng.choice([(5, 4), (3, 7), (6, 6)])
+            yield self._big_case(rng, f"big_inv_{style}", h, w, rng.choice(["native", "slim"]),
+                                 h * w - rng.randint(1, 5), inv, noise_exp=rng.choice([0, -12, 12]),
+                                 noise_mixed=True)
+
+    def generate_large(self, hints, rng):
+        """constant-directed cases: for every new integer constant c of the anchored source, every size the
+        property's code runs over — frame pixels H*W (exact, non-square), unmasked pixels, masked pixels,
+        total / regularized parameters (one object = the in-place path, several objects, with unregularized
+        objects), number of linear objects — at c-1, c, c+1, c + c//3 + 1 and 2c+1."""
+        for c in sorted(set(int(x) for x in hints)):
+            sizes = [c - 1, c, c + 1, c + c // 3 + 1, 2 * c + 1]
+            for s in sizes:
+                if s < 2:
+                    continue
+                ne = rng.choice([0, 0, -12, 12])
+                if s <= self.BIG_MAX_PIXELS:
+                    h, w = self._frame_for(s)
+                    # frame pixels = s: masked-native with a mask, and everything unmasked (unmasked = s too)
+                    yield self._big_case(rng, "large_frame_native", h, w, "native", s - max(1, s // 5), None, ne)
+                    yield self._big_case(rng, "large_frame_all", h, w, rng.choice(["native", "slim"]), None, None, ne)
+                    # unmasked pixels = s inside a larger, non-square frame (slim arrays have s entries)
+                    h2, w2 = self._frame_for(s + max(7, s // 4) + (1 if (s + max(7, s // 4)) % 2 else 0))
+                    yield self._big_case(rng, "large_unmasked_slim", h2, w2, "slim", s, None, ne,
+                                         data_exp=rng.choice([0, 20]))
+                    yield self._big_case(rng, "large_unmasked_native", h2, w2, "native", s, None, ne,
+                                         fit_cls=rng.choice(["imaging", "dataset"]))
+                    # masked pixels = s (sum over the mask), few unmasked
+                    h3, w3 = self._frame_for(s + 36)
+                    yield self._big_case(rng, "large_masked_native", h3, w3, "native", 36, None, ne)
+                if s <= self.BIG_MAX_PARAMS:
+                    fe, he = rng.choice(self.BIG_EXPS[:3])
+                    fr = rng.choice([(5, 4), (3, 7)])
+                    # regularized parameters = s: one object (in-place F+H path), two objects, with unregularized ones
+                    for style in (["single", "two", "partial_mid"] if s <= 1200 else
+                                  ["single", "partial_last"] if s <= 2200 else ["single"]):
+                        inv = self._big_inv(rng, s, style, fe, he)
+                        yield self._big_case(rng, f"large_reg_{style}", fr[0], fr[1], "slim", None, inv, ne)
+                    # total parameters = s with some unregularized (reduced matrices are smaller)
+                    if 6 < s <= 2200:
+                        inv = self._big_inv(rng, s - 3, "single", fe, he)
+                        inv["params"] = [2] + inv["params"] + [1]
+                        inv["reg"] = [False] + inv["reg"] + [False]
+                        yield self._big_case(rng, "large_total_params", fr[0], fr[1], "native", fr[0] * fr[1] - 3, inv, ne)
+                if s <= self.BIG_MAX_OBJS:
+                    # number of linear objects = s (about a quarter of them unregularized)
+                    nr = s - max(1, s // 4)
+                    inv = self._big_inv(rng, 2 * nr, "many", n_objs=nr)
+                    while len(inv["params"]) < s:
+                        inv["params"].append(1)
+                        inv["reg"].append(False)
+                    inv["params"], inv["reg"] = inv["params"][:s], inv["reg"][:s]
+                    if not any(inv["reg"]):
+                        inv["reg"][0] = True
+                    yield self._big_case(rng, "large_objects", 4, 5, "slim", None, inv, 0)
+
     # ------------------------------------------------------------------ implementation
-    def _build(self, case):
+    def _build(self, case, mask_obj=None):
         aa = load_autoarray()
         cl = _fit_classes(aa)
         mj = case["mask"]
         h, w = mj["h"], mj["w"]
         mb = np.array([c == "1" for c in mj["bits"]], dtype=bool).reshape(h, w)
-        mask = aa.Mask2D(mask=mb, pixel_scales=(1.0, 1.0))
+        # (history stream: a mask object of an earlier world with the same content is reused)
+        mask = mask_obj if mask_obj is not None else aa.Mask2D(mask=mb, pixel_scales=(1.0, 1.0))
         feed = case.get("feed") or {}
         dtype, cont = feed.get("dtype", "float"), feed.get("container", "ndarray")
 
@@ -473,7 +699,9 @@ class C08(PropertyCheck):
             dm = aa.DatasetModel(background_sky_level=float(bgq))
         return aa, cl, mask, mb, dataset, arr["model"], use_mask, (dm, pass_dm)
 
-    def _make_inversion(self, aa, cl, case, dataset, mask):
+    def _make_inversion(self, aa, cl, case, dataset, mask, lin_objs_pre=None, preloads=None, settings=None):
+        """-> (inversion, remake).  History stream: `lin_objs_pre` = linear objects of an earlier world that
+        are reused as they are; `preloads` / `settings` = shared Preloads / SettingsInversion objects."""
         inv = case.get("inversion")
         if inv is None:
             return None, None
@@ -483,6 +711,8 @@ class C08(PropertyCheck):
                                       data_vector=1, **t), None
 
         def lin_objs(with_mm):
+            if lin_objs_pre is not None:
+                return lin_objs_pre
             out = []
             for o in inv["objs"]:
                 reg = None
@@ -511,18 +741,90 @@ class C08(PropertyCheck):
         if inv["kind"] == "abstract":
             F = [[float(Fraction(v)) for v in r] for r in inv["F"]]
             s = [float(Fraction(v)) for v in inv["s"]]
-            return cl["Inv"](lin_objs(False), F, s), None
+            los = lin_objs(False)
+            inversion = cl["Inv"](los, F, s)
+            inversion._verif_lin_objs = los
+            return inversion, None
         # real: InversionImagingMapping on a dataset without blurring
         from autoarray.inversion.inversion.dataset_interface import DatasetInterface
 
         psf = aa.Kernel2D.no_mask(values=[[1.0]], pixel_scales=(1.0, 1.0))
         ds = DatasetInterface(data=dataset.data, noise_map=dataset.noise_map,
                               convolver=aa.Convolver(mask=mask, kernel=psf))
-        mk = lambda: aa.Inversion(dataset=ds, linear_obj_list=lin_objs(True),
-                                  settings=aa.SettingsInversion(use_w_tilde=False))
+        def mk():
+            los = lin_objs(True)
+            kw = {} if preloads is None else {"preloads": preloads}
+            inversion = aa.Inversion(dataset=ds, linear_obj_list=los,
+                                     settings=settings or aa.SettingsInversion(use_w_tilde=False), **kw)
+            inversion._verif_lin_objs = los
+            return inversion
+
         return mk(), mk
 
-    def run_impl(self, case):
+    def _mk_fit(self, aa, cl, case, dataset, model, use_mask, dm, pass_dm, inversion, fit_class=None):
+        feed = case.get("feed") or {}
+        if fit_class is None and feed.get("wrapper") == "mock" and case["fit_cls"] == "imaging":
+            # the library's own thin subclass (aa.m.MockFitImaging) instead of the harness one
+            kw = {"dataset": dataset, "model_data": model, "inversion": inversion}
+            if use_mask is not None:
+                kw["use_mask_in_fit"] = use_mask
+            if pass_dm:
+                kw["dataset_model"] = dm
+            return aa.m.MockFitImaging(**kw)
+        Fit = fit_class or (cl["FitI"] if case["fit_cls"] == "imaging" else cl["FitD"])
+        return Fit(dataset, use_mask, model, dataset_model=dm, inversion=inversion, pass_dm=pass_dm)
+
+    def _observe(self, aa, case, fit, inversion, model, mb, use_mask, extra=None, order=None):
+        """every observable the property names, read off `fit` / `inversion`.  `order` (history stream): a
+        seed permuting the order in which the quantities are read."""
+        inv = case.get("inversion")
+        map_keys = list(MAP_KEYS)
+        scal_keys = ["chi_squared", "reduced_chi_squared", "noise_normalization", "log_likelihood",
+                     "figure_of_merit", "log_evidence", "log_likelihood_with_regularization"]
+        term_keys = ["regularization_term", "log_det_curvature_reg_matrix_term",
+                     "log_det_regularization_matrix_term"]
+        groups = ["maps", "scalars", "inversion"]
+        if order is not None:
+            import random as _random
+
+            r = _random.Random(order)
+            r.shuffle(map_keys)
+            r.shuffle(scal_keys)
+            r.shuffle(term_keys)
+            r.shuffle(groups)
+        obs = {}
+        no_pixels = "0" not in case["mask"]["bits"]
+        for g in groups:
+            if g == "maps":
+                for k in map_keys:
+                    obs[k] = qlist(np.asarray(getattr(fit, k), dtype=float).ravel())
+            elif g == "scalars":
+                for k in scal_keys:
+                    if k == "reduced_chi_squared" and no_pixels:
+                        obs[k] = None      # chi_squared / 0 pixels: undefined, not part of the property
+                        continue
+                    v = getattr(fit, k)
+                    obs[k] = None if v is None else q(float(v))
+                if use_mask:
+                    obs["util_chi_squared_with_mask_fast"] = q(float(aa.util.fit.chi_squared_with_mask_fast_from(
+                        data=np.asarray(fit.data), mask=mb, model_data=np.asarray(model),
+                        noise_map=np.asarray(fit.noise_map))))
+            elif inversion is None:
+                obs["inversion"] = None
+            else:
+                io = {k: q(float(getattr(inversion, k))) for k in term_keys}
+                if inv["kind"] != "mock":
+                    io["no_regularization_index_list"] = [int(i) for i in inversion.no_regularization_index_list]
+                    io["regularization_matrix"] = qmat(np.array(inversion.regularization_matrix))
+                    io["regularization_matrix_reduced"] = qmat(np.array(inversion.regularization_matrix_reduced))
+                    io["curvature_reg_matrix"] = qmat(np.array(inversion.curvature_reg_matrix))
+                    io["curvature_reg_matrix_reduced"] = qmat(np.array(inversion.curvature_reg_matrix_reduced))
+                    io["reconstruction_reduced"] = qlist(np.array(inversion.reconstruction_reduced))
+                obs["inversion"] = io
+        obs.update({"_" + k: v for k, v in (extra or {}).items()})
+        return obs
+
+    def _run_fit(self, case):
         aa, cl, mask, mb, dataset, model, use_mask, dm = self._build(case)
         inversion, remake = self._make_inversion(aa, cl, case, dataset, mask)
         inv = case.get("inversion")
@@ -536,49 +838,763 @@ class C08(PropertyCheck):
             model = aa.Array2D(values=np.array(inversion.mapped_reconstructed_data), mask=mask)
             extra["model"] = qlist(np.array(model))
         dm, pass_dm = dm
-        feed = case.get("feed") or {}
-        if feed.get("wrapper") == "mock" and case["fit_cls"] == "imaging":
-            # the library's own thin subclass (aa.m.MockFitImaging) instead of the harness one
-            kw = {"dataset": dataset, "model_data": model, "inversion": inversion}
-            if use_mask is not None:
-                kw["use_mask_in_fit"] = use_mask
-            if pass_dm:
-                kw["dataset_model"] = dm
-            fit = aa.m.MockFitImaging(**kw)
+        fit = self._mk_fit(aa, cl, case, dataset, model, use_mask, dm, pass_dm, inversion)
+        return self._observe(aa, case, fit, inversion, model, mb, use_mask, extra)
+
+    def run_impl(self, case):
+        kind = case.get("kind", "fit")
+        if kind == "big":
+            return self._run_big(case)
+        if kind == "hist":
+            return self._run_hist(case)
+        return self._run_fit(case)
+
+    # ------------------------------------------------------------------ large / extreme-scale stream (round 4)
+    # A "big" case is a compact RECIPE (shape, mask recipe, seed, binary exponents, inversion block sizes); the
+    # arrays are derived from it deterministically with numpy (exact doubles).  No model comparison: the
+    # vectorised oracle alone judges it (`_big_expect` states every clause with numpy on the recipe's arrays,
+    # never calling the code under test).
+    BIG_MAX_PIXELS = 300000
+    BIG_MAX_PARAMS = 2700
+    BIG_MAX_OBJS = 400
+
+    @staticmethod
+    def _big_mask(case):
+        h, w = case["h"], case["w"]
+        mk = case["mask"]
+        flat = np.ones(h * w, dtype=bool)
+        if mk["kind"] == "all":
+            flat[:] = False
+        else:  # "run": a row-major run (off-origin, wraps rows, leaves the frame edge free or not) with holes
+            off, L, k = mk["start"], mk["len"], mk["holes"]
+            flat[off:off + L] = False
+            if k:
+                step = max(1, (L - 2) // k)
+                flat[off + 1 + step * np.arange(k)] = True
+        return flat.reshape(h, w)
+
+    @staticmethod
+    def _run_mask_recipe(n, s, start_frac=0.37):
+        """recipe of a mask of a frame with n pixels that has exactly s unmasked pixels (n >= s + 2)."""
+        k = min(max(0, (n - s) // 3), max(0, s // 7), 40)
+        L = s + k
+        if L > n:
+            k, L = 0, s
+        off = int((n - L) * start_frac)
+        return {"kind": "run", "start": off, "len": L, "holes": k}
+
+    def _big_world(self, case):
+        g = np.random.default_rng(case["seed"])
+        h, w = case["h"], case["w"]
+        n = h * w
+        mb = self._big_mask(case)
+        un = np.flatnonzero(~mb.ravel())
+        de, ne = case.get("data_exp", 0), case.get("noise_exp", 0)
+        data = g.integers(-64, 65, n) / 8.0 * 2.0 ** de
+        model = g.integers(-64, 65, n) / 8.0 * 2.0 ** de
+        noise = g.integers(4, 25, n) / 4.0 * 2.0 ** ne
+        if case.get("noise_mixed"):
+            noise = noise * 2.0 ** g.integers(-3, 4, n)
+        bg = float(Fraction(case.get("background", "0")))
+        eff_bg = bg if case.get("fit_cls", "imaging") == "imaging" else 0.0
+        z = (data - eff_bg) == 0.0
+        data[z] += 2.0 ** de / 8.0
+        if case["mode"] == "native":
+            # junk under the mask: huge / zero data, negative or x1000 noise, huge model values
+            m = mb.ravel()
+            r = g.random(n)
+            data = np.where(m & (r < 0.3), np.sign(data + 0.5) * 1.0e5 * (1 + (r * 977) % 7), data)
+            data = np.where(m & (r >= 0.3) & (r < 0.4), 0.0, data)
+            noise = np.where(m & (g.random(n) < 0.4), -noise, noise)
+            noise = np.where(m & (g.random(n) < 0.2), noise * 1000.0, noise)
+            model = np.where(m & (g.random(n) < 0.3), np.round((g.random(n) - 0.5) * 2.0e6), model)
+        W = {"mb": mb, "un": un, "data": data, "noise": noise, "model": model, "bg": bg, "eff_bg": eff_bg}
+        iv = case.get("inv")
+        if iv:
+            params, flags = iv["params"], iv["reg"]
+            tot = int(sum(params))
+            fe, he, se = iv.get("f_exp", 0), iv.get("h_exp", 0), iv.get("s_exp", 0)
+            B = g.integers(-2, 3, (iv.get("rank", 6), tot)).astype(float)
+            F = (B.T @ B + float(iv.get("ridge", 1)) * np.eye(tot)) * 2.0 ** fe
+            regs = []
+            for p, fl in zip(params, flags):
+                if not fl:
+                    regs.append(None)
+                    continue
+                d = g.integers(10, 17, p) / 4.0
+                o = -g.integers(0, 5, max(p - 1, 0)) / 4.0 * g.choice([1.0, 1.0, -1.0], max(p - 1, 0))
+                Hm = np.diag(d)
+                if p > 1:
+                    Hm += np.diag(o, 1) + np.diag(o, -1)
+                regs.append(Hm * 2.0 ** he)
+            sv = g.integers(-16, 17, tot) / 4.0 * 2.0 ** se
+            W["inv"] = {"F": F, "s": sv, "regs": regs, "params": params, "flags": flags, "tot": tot}
+        return W
+
+    _big_cache = (None, None)
+
+    def _big_expect(self, case, W=None):
+        """the property's clauses stated with numpy on the recipe's arrays (float64; sums with math.fsum;
+        log-determinants with LU-based slogdet of the principal sub-matrices on the regularized parameters)."""
+        key = json.dumps({k: v for k, v in case.items() if not k.startswith("_")}, sort_keys=True, default=str)
+        if self._big_cache[0] == key:
+            return self._big_cache[1]
+        W = W or self._big_world(case)
+        un = W["un"]
+        d = W["data"][un] - W["eff_bg"]
+        no = W["noise"][un]
+        mo = W["model"][un]
+        with np.errstate(all="ignore"):
+            res = d - mo
+            nres = res / no
+            maps = {"data": d, "residual_map": res, "normalized_residual_map": nres,
+                    "chi_squared_map": nres ** 2, "residual_flux_fraction_map": res / d,
+                    "signal_to_noise_map": np.maximum(d / no, 0.0)}
+            chi = math.fsum(maps["chi_squared_map"].tolist())
+            norm = math.fsum(np.log(2.0 * np.pi * no ** 2).tolist())
+        E = {"maps": maps, "chi_squared": chi, "noise_normalization": norm,
+             "reduced_chi_squared": chi / len(un) if len(un) else None,
+             "log_likelihood": -0.5 * (chi + norm), "inv": None}
+        if "inv" in W:
+            I = W["inv"]
+            keep, off = [], 0
+            H = np.zeros((I["tot"], I["tot"]))
+            for p, Hm in zip(I["params"], I["regs"]):
+                if Hm is not None:
+                    H[off:off + p, off:off + p] = Hm
+                    keep += list(range(off, off + p))
+                off += p
+            keep = np.array(keep, dtype=int)
+            no_reg = sorted(set(range(I["tot"])) - set(keep.tolist()))
+            ex = {"no_regularization_index_list": no_reg, "keep": keep, "H": H}
+            if len(keep) == 0:
+                ex.update(reg=0.0, lcr=0.0, lr=0.0, ok=True)
+            else:
+                Hr = H[np.ix_(keep, keep)]
+                FHr = I["F"][np.ix_(keep, keep)] + Hr
+                sr = I["s"][keep]
+                sg1, ld1 = np.linalg.slogdet(FHr)
+                sg2, ld2 = np.linalg.slogdet(Hr)
+                ex.update(reg=float(sr @ (Hr @ sr)), lcr=float(ld1), lr=float(ld2), ok=bool(sg1 > 0 and sg2 > 0),
+                          Hr=Hr, FHr=FHr, sr=sr)
+            E["inv"] = ex
+            E["log_evidence"] = -0.5 * (chi + ex["reg"] + ex["lcr"] - ex["lr"] + norm)
+            E["log_likelihood_with_regularization"] = -0.5 * (chi + ex["reg"] + norm)
+        type(self)._big_cache = (key, E)
+        return E
+
+    def _run_big(self, case):
+        aa = load_autoarray()
+        cl = _fit_classes(aa)
+        W = self._big_world(case)
+        h, w = case["h"], case["w"]
+        mb, un = W["mb"], W["un"]
+        mask = aa.Mask2D(mask=mb, pixel_scales=(1.0, 1.0))
+        mode = case["mode"]
+        if mode == "native":
+            arr = {k: aa.Array2D(values=W[k].reshape(h, w), mask=mask, store_native=True, skip_mask=True)
+                   for k in ("data", "noise", "model")}
+            dataset = aa.Imaging(data=arr["data"], noise_map=arr["noise"])
+            use_mask, pos = True, un
+        elif mode == "slim":
+            arr = {k: aa.Array2D(values=W[k][un], mask=mask) for k in ("data", "noise", "model")}
+            dataset = aa.Imaging(data=arr["data"], noise_map=arr["noise"])
+            use_mask, pos = False, None
         else:
-            Fit = cl["FitI"] if case["fit_cls"] == "imaging" else cl["FitD"]
-            fit = Fit(dataset, use_mask, model, dataset_model=dm, inversion=inversion, pass_dm=pass_dm)
-        obs = {}
+            full = aa.Imaging(
+                data=aa.Array2D.no_mask(values=W["data"].reshape(h, w), pixel_scales=(1.0, 1.0)),
+                noise_map=aa.Array2D.no_mask(values=np.abs(W["noise"]).reshape(h, w), pixel_scales=(1.0, 1.0)),
+                check_noise_map=False)
+            dataset = full.apply_mask(mask=mask)
+            arr = {"model": aa.Array2D(values=W["model"].reshape(h, w), mask=mask)}
+            use_mask, pos = False, None
+        dm = aa.DatasetModel(background_sky_level=W["bg"]) if W["bg"] != 0 else None
+        inversion = None
+        if "inv" in W:
+            I = W["inv"]
+            los = []
+            for p, Hm in zip(I["params"], I["regs"]):
+                if Hm is not None:
+                    los.append(aa.m.MockMapper(parameters=p, mapping_matrix=None, edge_pixel_list=[],
+                                               regularization=aa.m.MockRegularization(regularization_matrix=Hm)))
+                else:
+                    los.append(aa.m.MockLinearObj(parameters=p, regularization=None))
+            inversion = cl["Inv"](los, I["F"], I["s"])
+        Fit = cl["FitI"] if case.get("fit_cls", "imaging") == "imaging" else cl["FitD"]
+        fit = Fit(dataset, use_mask, arr["model"], dataset_model=dm, inversion=inversion, pass_dm=dm is not None)
+        E = self._big_expect(case, W)
+        obs = {"pixels": int(h * w), "unmasked": int(len(un)), "maps": {}}
         for k in MAP_KEYS:
-            obs[k] = qlist(np.asarray(getattr(fit, k), dtype=float).ravel())
-        no_pixels = "0" not in case["mask"]["bits"]
+            got = np.asarray(getattr(fit, k), dtype=float).ravel()
+            bad = _digest(got, E["maps"][k], pos)
+            if bad is None and got.size != (h * w if mode == "native" else len(un)):
+                bad = [-1, f"{got.size} entries", "wrong length"]
+            obs["maps"][k] = {"n": int(got.size), "bad": bad}
         for k in ("chi_squared", "reduced_chi_squared", "noise_normalization", "log_likelihood",
                   "figure_of_merit", "log_evidence", "log_likelihood_with_regularization"):
-            if k == "reduced_chi_squared" and no_pixels:
-                obs[k] = None      # chi_squared / 0 pixels: undefined, not part of the property
-                continue
             v = getattr(fit, k)
             obs[k] = None if v is None else q(float(v))
         if use_mask:
             obs["util_chi_squared_with_mask_fast"] = q(float(aa.util.fit.chi_squared_with_mask_fast_from(
-                data=np.asarray(fit.data), mask=mb, model_data=np.asarray(model),
+                data=np.asarray(fit.data), mask=mb, model_data=np.asarray(arr["model"]),
                 noise_map=np.asarray(fit.noise_map))))
         if inversion is None:
             obs["inversion"] = None
         else:
-            io = {"regularization_term": q(float(inversion.regularization_term)),
-                  "log_det_curvature_reg_matrix_term": q(float(inversion.log_det_curvature_reg_matrix_term)),
-                  "log_det_regularization_matrix_term": q(float(inversion.log_det_regularization_matrix_term))}
-            if inv["kind"] != "mock":
-                io["no_regularization_index_list"] = [int(i) for i in inversion.no_regularization_index_list]
-                io["regularization_matrix"] = qmat(np.array(inversion.regularization_matrix))
-                io["regularization_matrix_reduced"] = qmat(np.array(inversion.regularization_matrix_reduced))
-                io["curvature_reg_matrix"] = qmat(np.array(inversion.curvature_reg_matrix))
-                io["curvature_reg_matrix_reduced"] = qmat(np.array(inversion.curvature_reg_matrix_reduced))
-                io["reconstruction_reduced"] = qlist(np.array(inversion.reconstruction_reduced))
+            ex = E["inv"]
+            io = {k: q(float(getattr(inversion, k))) for k in
+                  ("regularization_term", "log_det_curvature_reg_matrix_term", "log_det_regularization_matrix_term")}
+            io["total_params"] = int(W["inv"]["tot"])
+            io["no_regularization_index_list_ok"] = (
+                [int(i) for i in inversion.no_regularization_index_list] == ex["no_regularization_index_list"])
+            io["regularization_matrix"] = _digest(inversion.regularization_matrix, ex["H"])
+            if len(ex["keep"]):
+                io["regularization_matrix_reduced"] = _digest(inversion.regularization_matrix_reduced, ex["Hr"])
+                io["curvature_reg_matrix_reduced"] = _digest(inversion.curvature_reg_matrix_reduced, ex["FHr"])
+                io["reconstruction_reduced"] = _digest(inversion.reconstruction_reduced, ex["sr"])
+                io["curvature_reg_matrix"] = _digest(inversion.curvature_reg_matrix, W["inv"]["F"] + ex["H"])
             obs["inversion"] = io
-        obs.update({"_" + k: v for k, v in extra.items()})
         return obs
+
+    def _oracle_big(self, case, obs):
+        E = self._big_expect(case)
+        where = f"[{case['h']}x{case['w']} frame, {obs.get('unmasked')} unmasked pixels, mode {case['mode']}]"
+        for k in MAP_KEYS:
+            b = obs["maps"][k]["bad"]
+            if b is not None:
+                return False, f"{k}[unmasked pixel #{b[0]}] = {b[1]}, definition gives {b[2]} {where}"
+        big = max(abs(E["chi_squared"]), abs(E["noise_normalization"]))
+        for k in ("chi_squared", "reduced_chi_squared", "noise_normalization", "log_likelihood"):
+            if E[k] is None:
+                continue
+            if obs[k] is None or not _close(_flt(obs[k]), E[k], scale=big if k == "log_likelihood" else 0.0):
+                return False, f"{k} = {obs[k] and _flt(obs[k])!r}, definition over the unmasked pixels gives {E[k]!r} {where}"
+        if "util_chi_squared_with_mask_fast" in obs and not _close(_flt(obs["util_chi_squared_with_mask_fast"]),
+                                                                   E["chi_squared"]):
+            return False, f"fit_util.chi_squared_with_mask_fast_from disagrees with the chi-squared definition {where}"
+        ex = E["inv"]
+        if ex is None:
+            for k in ("log_evidence", "log_likelihood_with_regularization"):
+                if obs[k] is not None:
+                    return False, f"{k} reported without an inversion"
+            if not _close(_flt(obs["figure_of_merit"]), E["log_likelihood"], scale=big):
+                return False, f"figure_of_merit is not the log likelihood although no inversion is present {where}"
+            return True, ""
+        if not ex["ok"]:
+            return True, "matrices not positive definite: outside the property's domain"
+        io = obs["inversion"]
+        iv = case["inv"]
+        wh = (f"[{sum(iv['params'])} parameters in {len(iv['params'])} linear objects, "
+              f"{len(ex['keep'])} regularized, F~2^{iv.get('f_exp', 0)}, H~2^{iv.get('h_exp', 0)}]")
+        if not io["no_regularization_index_list_ok"]:
+            return False, f"no_regularization_index_list is not the list of unregularized parameters {wh}"
+        for k in ("regularization_matrix", "regularization_matrix_reduced", "curvature_reg_matrix_reduced",
+                  "reconstruction_reduced", "curvature_reg_matrix"):
+            if io.get(k) is not None:
+                b = io[k]
+                return False, f"inversion.{k}[flat #{b[0]}] = {b[1]}, definition gives {b[2]} {wh}"
+        for k, e in (("regularization_term", ex["reg"]), ("log_det_curvature_reg_matrix_term", ex["lcr"]),
+                     ("log_det_regularization_matrix_term", ex["lr"])):
+            if not _close(_flt(io[k]), e):
+                return False, (f"inversion.{k} = {_flt(io[k])!r}; restricted to the regularized parameters the "
+                               f"definition gives {e!r} {wh}")
+        big2 = max(big, abs(ex["reg"]), abs(ex["lcr"]), abs(ex["lr"]))
+        for k in ("log_evidence", "log_likelihood_with_regularization"):
+            if obs[k] is None or not _close(_flt(obs[k]), E[k], scale=big2):
+                return False, f"{k} = {obs[k] and _flt(obs[k])!r}, definition gives {E[k]!r} {wh}"
+        if not _close(_flt(obs["figure_of_merit"]), E["log_evidence"], scale=big2):
+            return False, f"figure_of_merit is not the log evidence although an inversion is present {wh}"
+        return True, ""
+
+    # ------------------------------------------------------------------ history stream (round 4)
+    # A "hist" case runs a short typed history on REAL reused objects.  Every observing step has a *state*: an
+    # ordinary fit case describing the world at that moment (`_hist_states`, a pure function of the case); the
+    # step's observation is compared with the Lean model's value for that state and judged by the ordinary
+    # oracle on that state, i.e. with what a freshly built fit in that state must report.
+    FIT_ATTRS = MAP_KEYS + ["chi_squared", "reduced_chi_squared", "noise_normalization", "log_likelihood",
+                            "figure_of_merit", "log_evidence", "log_likelihood_with_regularization",
+                            "mask", "inversion", "noise_map", "model_data", "dataset", "dataset_model"]
+    INV_ATTRS = ["curvature_reg_matrix", "curvature_matrix", "regularization_matrix",
+                 "regularization_matrix_reduced", "curvature_reg_matrix_reduced", "reconstruction_reduced",
+                 "reconstruction", "no_regularization_index_list", "total_params", "regularization_list",
+                 "all_linear_obj_have_regularization", "total_regularizations", "mapper_edge_pixel_list",
+                 "reconstruction_dict", "regularization_term", "log_det_curvature_reg_matrix_term",
+                 "log_det_regularization_matrix_term", "mask", "data", "noise_map"]
+    INV_ATTRS_REAL = ["mapping_matrix", "operated_mapping_matrix", "data_vector", "mapped_reconstructed_data",
+                      "mapped_reconstructed_image", "mapped_reconstructed_data_dict", "data_subtracted_dict",
+                      "mapper_zero_pixel_list"]
+    PRELOAD_SETTERS = ["set_curvature_matrix", "set_regularization_matrix_and_term",
+                       "set_operated_mapping_matrix_with_preloads"]
+
+    @staticmethod
+    def _valid_state(st):
+        """the property's domain: positive noise and non-zero (data - background) at every unmasked pixel."""
+        bg = Fraction(st["background"]) if st["fit_cls"] == "imaging" else Fraction(0)
+        for i, b in enumerate(st["mask"]["bits"]):
+            if b == "0" and (Fraction(st["noise"][i]) <= 0 or Fraction(st["data"][i]) - bg == 0):
+                return False
+        return True
+
+    @staticmethod
+    def _apply_edits(st, edits):
+        st = json.loads(json.dumps(st))
+        for e in edits:
+            t = e["target"]
+            if t in ("data", "noise", "model"):
+                st[t][e["pixel"]] = e["value"]
+            elif t == "background":
+                st["background"] = e["value"]
+            elif t == "mask":
+                bits = st["mask"]["bits"]
+                st["mask"]["bits"] = bits[:e["pixel"]] + ("1" if e["value"] else "0") + bits[e["pixel"] + 1:]
+        return st
+
+    def _exact_F(self, st):
+        """curvature matrix of a 'real' state from its definition, exactly: F_ab = sum_i f_ia f_ib / sigma_i^2 over
+        the unmasked pixels (the PSF of these cases is the 1x1 unit kernel), independent of the inversion."""
+        un = [i for i, b in enumerate(st["mask"]["bits"]) if b == "0"]
+        cols = []
+        for o in st["inversion"]["objs"]:
+            mm = [[Fraction(v) for v in r] for r in o["mapping_matrix"]]
+            for c in range(o["params"]):
+                cols.append([mm[k][c] for k in range(len(un))])
+        w = [1 / Fraction(st["noise"][i]) ** 2 for i in un]
+        F = [[sum(a[k] * b[k] * w[k] for k in range(len(un))) for b in cols] for a in cols]
+        # documented configuration (general.yaml inversion.no_regularization_add_to_curvature_diag_value): the
+        # library adds this value to the diagonal entries of parameters of unregularized linear objects
+        add = Fraction(str(load_autoarray().SettingsInversion(use_w_tilde=False).no_regularization_add_to_curvature_diag_value))
+        off = 0
+        for o in st["inversion"]["objs"]:
+            if o["reg"] is None:
+                for j in range(off, off + o["params"]):
+                    F[j][j] += add
+            off += o["params"]
+        return qmat(F)
+
+    def _hist_states(self, case):
+        sc = case["scenario"]
+        if sc == "edit":
+            st, out = case["base"], [case["base"]]
+            for edits in case["rounds"]:
+                st = self._apply_edits(st, edits)
+                out.append(st)
+            return out
+        if sc == "worlds":
+            return [case["worlds"][i] for i in case["order"]]
+        if sc == "fault":
+            return [None, case["base"]]
+        if sc == "decoy":
+            st = dict(case["base"])
+            inv = st.get("inversion")
+            if inv is not None and inv["kind"] == "abstract":
+                st["curvature_matrix_after"] = inv["F"]
+            elif inv is not None and inv["kind"] == "real":
+                st["curvature_matrix_after"] = self._exact_F(st)
+            return [st, st]
+        if sc == "preloads":
+            b2 = case.get("base2") or case["base"]
+            return [case["base"], case["base"], b2, b2]
+        raise ValueError(sc)
+
+    # ---- impl side
+    def _world(self, aa, cl, c, prevs=(), preloads=None, settings=None, fit_class=None, inversion_case=None):
+        """objects of one ordinary case; every component whose description equals that of an earlier world in
+        `prevs` IS that earlier object (mask, dataset, model array, dataset model, linear objects, inversion)."""
+        fd = lambda cc: (cc.get("feed") or {})
+        mask_obj = next((p["mask"] for p in prevs if p["case"]["mask"] == c["mask"]), None)
+        aa, cl, mask, mb, dataset, model, use_mask, (dm, pass_dm) = self._build(c, mask_obj)
+        los_pre, inversion = None, None
+        for p in prevs:
+            pc = p["case"]
+            same_feed = all(fd(pc).get(k) == fd(c).get(k) for k in ("dtype", "container"))
+            if p["mask"] is mask and pc["mode"] == c["mode"] and same_feed:
+                if pc["data"] == c["data"] and pc["noise"] == c["noise"]:
+                    dataset = p["dataset"]
+                if pc["model"] == c["model"]:
+                    model = p["model"]
+            if (p["dm"] is not None and dm is not None and pc["background"] == c["background"]
+                    and fd(pc).get("dm") == fd(c).get("dm")):
+                dm = p["dm"]
+            pi, ci = pc.get("inversion"), c.get("inversion")
+            if pi is not None and ci is not None and pi["kind"] == ci["kind"] and pi["kind"] != "real" \
+                    and fd(pc).get("reg") == fd(c).get("reg"):
+                if pi == ci:
+                    inversion = p["inversion"]          # one inversion object serving two fits
+                elif pi["kind"] == "abstract" and pi["objs"] == ci["objs"]:
+                    los_pre = p["inversion"]._verif_lin_objs
+        remake = None
+        ic = inversion_case or c
+        if inversion is None:
+            inversion, remake = self._make_inversion(aa, cl, ic, dataset, mask, lin_objs_pre=los_pre,
+                                                     preloads=preloads, settings=settings)
+        extra = {}
+        if ic.get("inversion") is not None and ic["inversion"]["kind"] == "real":
+            model = aa.Array2D(values=np.array(inversion.mapped_reconstructed_data), mask=mask)
+            extra = {"F": self._exact_F(c), "s": qlist(np.array(inversion.reconstruction)),
+                     "model": qlist(np.array(model))}
+        fit = self._mk_fit(aa, cl, c, dataset, model, use_mask, dm, pass_dm, inversion, fit_class=fit_class)
+        return {"case": c, "mask": mask, "mb": mb, "dataset": dataset, "model": model, "use_mask": use_mask,
+                "dm": dm, "pass_dm": pass_dm, "inversion": inversion, "fit": fit, "extra": extra}
+
+    def _obs_world(self, aa, W, state=None, order=None):
+        st = state or W["case"]
+        mb = np.array([c == "1" for c in st["mask"]["bits"]], dtype=bool).reshape(st["mask"]["h"], st["mask"]["w"])
+        return self._observe(aa, st, W["fit"], W["inversion"], W["model"], mb, W["use_mask"], W["extra"], order)
+
+    @staticmethod
+    def _decoy_reads(obj, names, seed):
+        import random as _random
+
+        names = list(names)
+        _random.Random(seed).shuffle(names)
+        for nme in names:
+            try:
+                getattr(obj, nme)
+            except Exception:
+                pass            # a sibling quantity that is not defined for this object: not an observation
+
+    def _run_hist(self, case):
+        aa = load_autoarray()
+        cl = _fit_classes(aa)
+        sc = case["scenario"]
+        steps, labels = [], []
+        if sc == "edit":
+            base = case["base"]
+            W = self._world(aa, cl, base)
+            steps.append(self._obs_world(aa, W, order=case.get("read_order")))
+            labels.append("first read")
+            st = base
+            ints = (base.get("feed") or {}).get("dtype", "float") != "float"
+            num = (lambda v: int(Fraction(v))) if ints else (lambda v: float(Fraction(v)))
+            w = base["mask"]["w"]
+            for r, edits in enumerate(case["rounds"]):
+                for e in edits:
+                    y, x = divmod(e["pixel"], w) if "pixel" in e else (0, 0)
+                    if base["mode"] == "native":
+                        key = (y, x)
+                    else:
+                        key = st["mask"]["bits"][:e.get("pixel", 0)].count("0")
+                    t = e["target"]
+                    if t == "data":
+                        W["dataset"].data[key] = num(e["value"])           # the library's __setitem__
+                    elif t == "noise":
+                        W["dataset"].noise_map[key] = num(e["value"])
+                    elif t == "model":
+                        W["fit"].model_data[key] = num(e["value"])
+                    elif t == "background":
+                        f = Fraction(e["value"])
+                        W["fit"].dataset_model.background_sky_level = int(f) if (ints and f.denominator == 1) else float(f)
+                    elif t == "mask":
+                        W["fit"].mask[y, x] = bool(e["value"])
+                st = self._apply_edits(st, edits)
+                steps.append(self._obs_world(aa, W, state=st, order=case.get("read_order")))
+                labels.append(f"same fit object re-read after in-place edit round {r + 1}: "
+                              + ", ".join(f"{e['target']}[{e.get('pixel', '')}]={e['value']}" for e in edits))
+        elif sc == "worlds":
+            built = {}
+            for i in case["order"]:
+                if i not in built:
+                    built[i] = self._world(aa, cl, case["worlds"][i], prevs=list(built.values()))
+                steps.append(self._obs_world(aa, built[i], order=case.get("read_order")))
+                labels.append(f"world {i} ({'re-read' if sum(1 for l in labels if l.startswith(f'world {i} ')) else 'first read'}; "
+                              f"shares every equal component with the other world)")
+        elif sc == "fault":
+            base, fk = case["base"], case["fault"]
+            if fk["kind"] == "bad_inversion":
+                tot = len(base["inversion"]["s"])
+                bad = json.loads(json.dumps(base))
+                bad["inversion"]["F"] = [[("-1000" if a == b else "0") for b in range(tot)] for a in range(tot)]
+                Wb = self._world(aa, cl, bad)
+                try:
+                    Wb["fit"].figure_of_merit
+                    steps.append({"fault": None})
+                except Exception as e:
+                    steps.append({"fault": type(e).__name__})
+                W = self._world(aa, cl, base, prevs=[Wb])
+            elif fk["kind"] == "bad_model_length":
+                W0 = self._world(aa, cl, base)
+                n = len(np.asarray(W0["model"]).ravel())
+                fb = self._mk_fit(aa, cl, base, W0["dataset"], np.ones(n + fk["k"]), W0["use_mask"], W0["dm"],
+                                  W0["pass_dm"], W0["inversion"])
+                try:
+                    fb.chi_squared
+                    fb.figure_of_merit
+                    steps.append({"fault": None})
+                except Exception as e:
+                    steps.append({"fault": type(e).__name__})
+                W = self._world(aa, cl, base, prevs=[W0])
+            else:  # the user's model_data raises on its k-th access; the same fit object is used afterwards
+                W = self._world(aa, cl, base, fit_class=cl["FitFault"])
+                W["fit"]._raise_at = fk["k"]
+                seen = None
+                for nme in self.FIT_ATTRS:
+                    try:
+                        getattr(W["fit"], nme)
+                    except _UserFault as e:
+                        seen = type(e).__name__
+                steps.append({"fault": seen})
+            labels.append(f"fault injected: {fk['kind']}")
+            steps.append(self._obs_world(aa, W, order=case.get("read_order")))
+            labels.append("same objects used after the fault")
+        elif sc == "decoy":
+            base = case["base"]
+            W = self._world(aa, cl, base)
+            inv = base.get("inversion")
+            inames = [] if inv is None or inv["kind"] == "mock" else \
+                self.INV_ATTRS + (self.INV_ATTRS_REAL if inv["kind"] == "real" else [])
+            for half in (0, 1):
+                self._decoy_reads(W["fit"], self.FIT_ATTRS[half::2], case["decoys"] + half)
+                if W["inversion"] is not None:
+                    self._decoy_reads(W["inversion"], inames[half::2], case["decoys"] + 7 + half)
+                ob = self._obs_world(aa, W, order=case.get("read_order"))
+                if inames:
+                    ob["curvature_matrix_after"] = qmat(np.array(W["inversion"].curvature_matrix))
+                steps.append(ob)
+                labels.append(f"observed after decoy reads of sibling quantities (part {half + 1})")
+        elif sc == "preloads":
+            base, b2 = case["base"], case.get("base2") or case["base"]
+            settings = aa.SettingsInversion(use_w_tilde=False) if case.get("shared_settings") else None
+            W0 = self._world(aa, cl, base, settings=settings)
+            W1 = self._world(aa, cl, base, prevs=[W0], settings=settings)
+            # W1 shares mask / dataset with W0 but is a separately built, equal model (its own linear objects)
+            for W in (W0, W1):
+                steps.append(self._obs_world(aa, W, order=case.get("read_order")))
+                labels.append("evaluated fit handed to Preloads.set_*")
+            pre = aa.Preloads()
+            for nme in case["setters"]:
+                try:
+                    getattr(pre, nme)(fit_0=W0["fit"], fit_1=W1["fit"])
+                except Exception:
+                    pass        # (documented oddity: some setters raise for mapper + func-list models; slot stays empty)
+            for k in range(2):
+                W = self._world(aa, cl, b2, prevs=[W0], preloads=pre, settings=settings)
+                steps.append(self._obs_world(aa, W, order=case.get("read_order")))
+                labels.append(f"new fit #{k + 1} built with the preloads the library derived from the evaluated fits "
+                              f"({', '.join(case['setters'])})")
+        else:
+            raise ValueError(sc)
+        return {"steps": steps, "labels": labels}
+
+    # ---- generators
+    def _hist_base(self, rng, tag, mode=None, style="any", ints=None, fit_cls=None, hw=None):
+        h, w = hw or (rng.randint(2, 6), rng.randint(2, 6))
+        m, _ = gen.random_mask(rng, h, w)
+        if sum(1 for r in m for b in r if not b) == 0:
+            m[rng.randrange(h)][rng.randrange(w)] = False
+        mode = mode or rng.choice(["native", "slim", "slim_applied"])
+        if style == "any":
+            style = rng.choice([None, "all_reg", "partial", "none_reg", "mock", "single"])
+        inv = None
+        if style == "single":
+            inv = self._inversion(rng, "all_reg")
+            while len(inv["objs"]) != 1:
+                inv = self._inversion(rng, "all_reg")
+        elif style:
+            inv = self._inversion(rng, style)
+        if fit_cls is None:
+            fit_cls = "dataset" if (rng.random() < 0.2 and mode != "slim_applied") else "imaging"
+        return self._case(rng, m, tag, mode, fit_cls, rng.random() < 0.6, inv, ints=ints)
+
+    def _gen_edit(self, rng):
+        for _ in range(20):
+            base = self._hist_base(rng, "hist_edit")
+            ints = (base["feed"]["dtype"] != "float")
+            w = base["mask"]["w"]
+            st, rounds = base, []
+            targets = ["data", "noise", "model", "background"] + (["mask", "mask"] if base["mode"] == "native" else [])
+            for r in range(rng.randint(1, 2)):
+                edits = []
+                for t in rng.sample(targets, rng.randint(1, 2)):
+                    bits = st["mask"]["bits"]
+                    un = [i for i, b in enumerate(bits) if b == "0"]
+                    if t == "background":
+                        data = [Fraction(v) for v in st["data"]]
+                        m = [[bits[y * w + x] == "1" for x in range(w)] for y in range(len(bits) // w)]
+                        edits.append({"target": t, "value": q(self._background(rng, data, m, ints))})
+                    elif t == "mask":
+                        ms = [i for i, b in enumerate(bits) if b == "1"]
+                        if ms and (len(un) < 2 or rng.random() < 0.5):
+                            p = rng.choice(ms)          # un-mask a masked pixel: its values become live
+                            base["noise"][p] = q(abs(Fraction(base["noise"][p])))
+                            edits.append({"target": t, "pixel": p, "value": False})
+                        elif len(un) >= 2:
+                            edits.append({"target": t, "pixel": rng.choice(un), "value": True})
+                    else:
+                        p = rng.choice(un)
+                        if t == "noise":
+                            v = Fraction(rng.randint(1, 7)) if ints else gen.pos_dyadic(rng, 1, 6, 2)
+                        else:
+                            v = Fraction(rng.randint(-9, 9)) if ints else gen.dyadic(rng, -8, 8, 3)
+                        edits.append({"target": t, "pixel": p, "value": q(v)})
+                    st = self._apply_edits(st, edits[-1:]) if edits else st
+                if edits:
+                    rounds.append(edits)
+            case = {"tag": "hist_edit_" + "+".join(sorted({e["target"] for r in rounds for e in r})),
+                    "kind": "hist", "scenario": "edit", "base": base, "rounds": rounds,
+                    "read_order": rng.choice([None, rng.randrange(1 << 16)])}
+            # (the un-mask edits above adjusted base: recompute the states and keep only histories that stay
+            # inside the property's domain at every step)
+            if rounds and all(self._valid_state(s) for s in self._hist_states(case)):
+                return case
+        return None
+
+    @staticmethod
+    def _scale_q(v, f):
+        return q(Fraction(v) * f)
+
+    def _gen_twin(self, rng):
+        """near-duplicate twin: one ingredient perturbed by 2^-20 or 2^-17 relative (inside np.allclose's default
+        tolerance, three orders of magnitude outside the property's 1e-9)."""
+        f = 1 + Fraction(1, 2 ** rng.choice([20, 17]))
+        for _ in range(20):
+            a = self._hist_base(rng, "hist_twin", ints=False,
+                                style=rng.choice([None, "all_reg", "partial", "mock", "single", "single"]))
+            b = json.loads(json.dumps(a))
+            inv = a.get("inversion")
+            whats = ["model", "data", "noise", "background"]
+            if inv is not None and inv["kind"] == "abstract":
+                whats += ["F", "s", "reg", "F", "reg"]
+            elif inv is not None:
+                whats += ["terms"]
+            what = rng.choice(whats)
+            un = [i for i, c in enumerate(a["mask"]["bits"]) if c == "0"]
+            if what in ("model", "data", "noise"):
+                for i in (un if rng.random() < 0.5 else rng.sample(un, max(1, len(un) // 2))):
+                    b[what][i] = self._scale_q(b[what][i], f)
+            elif what == "background":
+                if Fraction(a["background"]) == 0:
+                    continue
+                b["background"] = self._scale_q(b["background"], f)
+                b["feed"]["dm"] = a["feed"]["dm"] = "explicit"
+            elif what == "F":
+                b["inversion"]["F"] = [[self._scale_q(v, f) for v in r] for r in inv["F"]]
+            elif what == "s":
+                b["inversion"]["s"] = [self._scale_q(v, f) for v in inv["s"]]
+            elif what == "reg":
+                regd = [j for j, o in enumerate(inv["objs"]) if o["reg"] is not None]
+                if not regd:
+                    continue
+                j = rng.choice(regd)
+                b["inversion"]["objs"][j]["reg"] = [[self._scale_q(v, f) for v in r] for r in inv["objs"][j]["reg"]]
+                b["feed"]["reg"] = a["feed"]["reg"] = rng.choice(["ndarray", "list"])
+            else:
+                k = rng.choice(sorted(inv["terms"]))
+                b["inversion"]["terms"][k] = self._scale_q(inv["terms"][k], f)
+            if a == b or not (self._valid_state(a) and self._valid_state(b)):
+                continue
+            return {"tag": f"hist_twin_{what}", "kind": "hist", "scenario": "worlds", "worlds": [a, b],
+                    "order": rng.choice([[0, 1, 0], [1, 0, 1], [0, 1], [0, 1, 1, 0]]),
+                    "read_order": rng.choice([None, rng.randrange(1 << 16)])}
+        return None
+
+    def _gen_shared(self, rng):
+        """two DIFFERENT worlds that share helper objects: the dataset (different model / sky level), the dataset
+        model object, the linear objects + regularizations (different F, s), or the whole inversion (different
+        data), observed in both orders."""
+        share = rng.choice(["dataset", "dm", "objs", "inversion", "mask_only"])
+        style = {"objs": rng.choice(["all_reg", "partial", "single"]),
+                 "inversion": rng.choice(["all_reg", "partial", "mock", "single"])}.get(
+            share, rng.choice([None, "all_reg", "mock"]))
+        ints = rng.random() < 0.2
+        a = self._hist_base(rng, "hist_shared", style=style, ints=ints)
+        h, w = a["mask"]["h"], a["mask"]["w"]
+        m = [[a["mask"]["bits"][y * w + x] == "1" for x in range(w)] for y in range(h)]
+        inv_b = None
+        if a.get("inversion") is not None:
+            inv_b = self._inversion(rng, style if style != "single" else "all_reg")
+        b = self._case(rng, m, "hist_shared", a["mode"], a["fit_cls"], True, inv_b, ints=ints)
+        b["feed"] = dict(a["feed"])
+        if Fraction(b["background"]) != 0 and b["feed"]["dm"] not in ("explicit", "explicit_int"):
+            b["feed"]["dm"] = "explicit"
+        if share == "dataset":
+            b["data"], b["noise"] = a["data"], a["noise"]
+        elif share == "dm":
+            b["background"] = a["background"]
+            b["feed"]["dm"] = a["feed"]["dm"]
+        elif share == "inversion":
+            b["inversion"] = a["inversion"]
+        elif share == "objs" and a["inversion"]["kind"] == "abstract":
+            tot = sum(o["params"] for o in a["inversion"]["objs"])
+            b["inversion"] = {**a["inversion"], "F": qmat(_spd_int(rng, tot, ridge=rng.randint(1, 3))),
+                              "s": qlist([gen.dyadic(rng, -4, 4, 2) for _ in range(tot)])}
+        # keep both worlds inside the domain (data - background != 0 at unmasked pixels)
+        for c in (a, b):
+            bg = Fraction(c["background"]) if c["fit_cls"] == "imaging" else Fraction(0)
+            c["data"] = qlist(self._fix_zero_data([Fraction(v) for v in c["data"]], m, bg, ints))
+        if share == "dataset":
+            b["data"] = a["data"]
+        if not (self._valid_state(a) and self._valid_state(b)):
+            return None
+        return {"tag": f"hist_shared_{share}", "kind": "hist", "scenario": "worlds", "worlds": [a, b],
+                "order": rng.choice([[0, 1, 0], [1, 0, 1], [0, 1, 0, 1]]),
+                "read_order": rng.choice([None, rng.randrange(1 << 16)])}
+
+    def _gen_fault(self, rng):
+        kind = rng.choice(["bad_inversion", "bad_model_length", "model_raises", "model_raises"])
+        style = rng.choice(["all_reg", "partial", "single"]) if kind == "bad_inversion" else "any"
+        base = self._hist_base(rng, "hist_fault", style=style)
+        if kind == "model_raises":
+            # the raising model_data lives in a harness subclass of FitImaging
+            base = self._hist_base(rng, "hist_fault", style=style, fit_cls="imaging")
+            base["feed"]["wrapper"] = "harness"
+        return {"tag": f"hist_fault_{kind}", "kind": "hist", "scenario": "fault", "base": base,
+                "fault": {"kind": kind, "k": rng.randint(1, 9)},
+                "read_order": rng.choice([None, rng.randrange(1 << 16)])}
+
+    def _gen_decoy(self, rng, real_i=None):
+        if real_i is not None:
+            h, w = rng.randint(3, 5), rng.randint(3, 5)
+            m, _ = gen.random_mask(rng, h, w, kind=rng.choice(["block", "blocks", "bernoulli", "all", "cross"]))
+            if sum(1 for r in m for b in r if not b) < 2:
+                m = gen.full(h, w, False)
+            base = self._real_case(rng, m, real_i)
+        else:
+            base = self._hist_base(rng, "hist_decoy", style=rng.choice(["all_reg", "partial", "single", "single",
+                                                                        "none_reg", "mock", None]))
+        return {"tag": "hist_decoy" + ("_real" if real_i is not None else ""), "kind": "hist", "scenario": "decoy",
+                "base": base, "decoys": rng.randrange(1 << 16),
+                "read_order": rng.choice([None, rng.randrange(1 << 16)])}
+
+    def _gen_preloads(self, rng, i):
+        h, w = rng.randint(3, 5), rng.randint(3, 5)
+        m, _ = gen.random_mask(rng, h, w, kind=rng.choice(["block", "blocks", "bernoulli", "all", "cross"]))
+        if sum(1 for r in m for b in r if not b) < 2:
+            m = gen.full(h, w, False)
+        base = self._real_case(rng, m, [0, 0, 1, 2][i % 4])      # all_reg (one or two objects) twice as often
+        case = {"tag": f"hist_preloads_{base['inversion']['style']}_{len(base['inversion']['objs'])}obj",
+                "kind": "hist", "scenario": "preloads", "base": base, "shared_settings": rng.random() < 0.5,
+                "read_order": rng.choice([None, rng.randrange(1 << 16)])}
+        if i % 2 == 0:
+            case["setters"] = rng.sample(self.PRELOAD_SETTERS, rng.randint(1, 3))
+            if "set_curvature_matrix" not in case["setters"] and rng.random() < 0.7:
+                case["setters"].insert(0, "set_curvature_matrix")
+        else:
+            # the new model has another regularization: only what does not depend on it is preloaded
+            f = rng.choice([Fraction(3, 2), Fraction(1, 2), 1 + Fraction(1, 2 ** 17)])
+            b2 = json.loads(json.dumps(base))
+            for o in b2["inversion"]["objs"]:
+                if o["reg"] is not None:
+                    o["reg"] = [[self._scale_q(v, f) for v in r] for r in o["reg"]]
+            case["base2"] = b2
+            case["setters"] = ["set_curvature_matrix"] + (["set_operated_mapping_matrix_with_preloads"]
+                                                          if rng.random() < 0.5 else [])
+        return case
+
+    def _hist_stream(self, tier, rng):
+        k = 3 if tier == "quick" else 10
+        plan = [(self._gen_edit, 70 * k), (self._gen_twin, 60 * k), (self._gen_shared, 50 * k),
+                (self._gen_fault, 30 * k), (self._gen_decoy, 40 * k)]
+        # the library-derived preloads first: a stale quantity there is a wrong log evidence, the most direct
+        # statement of the property
+        for i in range(24 * k):
+            yield self._gen_preloads(rng, i)
+        for fn, n in plan:
+            for _ in range(n):
+                c = fn(rng)
+                if c is not None:
+                    yield c
+        for i in range(12 * k):
+            yield self._gen_decoy(rng, real_i=i)
 
     # ------------------------------------------------------------------ model
     def _slim(self, case, key, obs=None):
@@ -586,6 +1602,20 @@ class C08(PropertyCheck):
         return [v for v, b in zip(case[key], bits) if b == "0"]
 
     def model_requests(self, case, impl_obs):
+        kind = case.get("kind", "fit")
+        if kind == "big":
+            return []           # judged by the vectorised oracle alone (sizes beyond the exact driver)
+        if kind == "hist":
+            if not isinstance(impl_obs, dict) or "steps" not in impl_obs:
+                return []
+            reqs = []
+            for st, ob in zip(self._hist_states(case), impl_obs["steps"]):
+                if st is not None:
+                    reqs += self._fit_requests(st, ob)
+            return reqs
+        return self._fit_requests(case, impl_obs)
+
+    def _fit_requests(self, case, impl_obs):
         native = case["mode"] == "native"
         inv = case.get("inversion")
         model = case["model"] if native else self._slim(case, "model")
@@ -611,6 +1641,21 @@ class C08(PropertyCheck):
         }]
 
     def model_obs(self, case, responses):
+        if case.get("kind") == "hist":
+            out, k = [], 0
+            for st in self._hist_states(case):
+                if st is None:
+                    out.append(None)
+                    continue
+                o = self._fit_model_obs(st, responses[k:k + 1])
+                k += 1
+                if "curvature_matrix_after" in st and isinstance(o, dict) and "err" not in o:
+                    o["curvature_matrix_after"] = st["curvature_matrix_after"]
+                out.append(o)
+            return {"steps": out}
+        return self._fit_model_obs(case, responses)
+
+    def _fit_model_obs(self, case, responses):
         r = responses[0]
         if "ok" not in r:
             return {"err": r.get("err")}
@@ -622,11 +1667,47 @@ class C08(PropertyCheck):
         return o
 
     def compare(self, case, impl_obs, model_obs, cmp):
-        a = {k: v for k, v in impl_obs.items() if not k.startswith("_")} if isinstance(impl_obs, dict) else impl_obs
-        return cmp.diff(a, model_obs)
+        strip = lambda o: {k: v for k, v in o.items() if not k.startswith("_")} if isinstance(o, dict) else o
+        if case.get("kind") == "hist" and isinstance(impl_obs, dict) and "steps" in impl_obs:
+            for k, (a, b) in enumerate(zip(impl_obs["steps"], model_obs["steps"])):
+                if b is None:
+                    continue        # a step that is not an observation (the injected fault itself)
+                d = cmp.diff(strip(a), b, f"$.steps[{k}]")
+                if d:
+                    return d
+            return None
+        return cmp.diff(strip(impl_obs), model_obs)
 
     # ------------------------------------------------------------------ oracle
     def oracle(self, case, obs):
+        if "err" in obs:
+            return False, f"implementation raised {obs['err']}: {obs.get('msg', '')}"
+        kind = case.get("kind", "fit")
+        if kind == "big":
+            return self._oracle_big(case, obs)
+        if kind == "hist":
+            labels = obs.get("labels") or []
+            for k, (st, ob) in enumerate(zip(self._hist_states(case), obs["steps"])):
+                if st is None:
+                    continue
+                lab = labels[k] if k < len(labels) else ""
+                if isinstance(ob, dict) and "err" in ob:
+                    return False, f"history step {k} ({lab}): implementation raised {ob['err']}: {ob.get('msg', '')}"
+                ok, why = self._oracle_fit(st, ob)
+                if ok and "curvature_matrix_after" in st:
+                    got = ob.get("curvature_matrix_after")
+                    want = st["curvature_matrix_after"]
+                    bad = got is None or len(got) != len(want) or any(
+                        not _close(Fraction(g), Fraction(x)) for rg, rw in zip(got, want) for g, x in zip(rg, rw))
+                    if bad:
+                        ok, why = False, ("inversion.curvature_matrix read after the evidence terms is not the "
+                                          "curvature matrix F of this inversion")
+                if not ok:
+                    return False, f"history step {k} ({lab}): {why} [expected = a freshly built fit in this state]"
+            return True, ""
+        return self._oracle_fit(case, obs)
+
+    def _oracle_fit(self, case, obs):
         if "err" in obs:
             return False, f"implementation raised {obs['err']}: {obs.get('msg', '')}"
         bits = case["mask"]["bits"]
@@ -747,10 +1828,12 @@ class C08(PropertyCheck):
 
     # ------------------------------------------------------------------ misc
     def nontrivial(self, case, obs):
+        if case.get("kind") in ("big", "hist"):
+            return True
         bits = case["mask"]["bits"]
         return ("0" in bits and "1" in bits) or case.get("inversion") is not None
 
-    def shrink(self, case):
+    def _shrink_fit(self, case):
         if case.get("inversion") is not None and case["inversion"]["kind"] != "real":
             yield {**case, "inversion": None}
         if Fraction(case["background"]) != 0:
@@ -762,7 +1845,123 @@ class C08(PropertyCheck):
                 if c == "0" and bits.count("0") > 1:
                     yield {**case, "mask": {**mj, "bits": bits[:i] + "1" + bits[i + 1:]}}
 
-    def theorems_for(self, case):
+    def _shrink_big(self, case):
+        iv = case.get("inv")
+        n = case["h"] * case["w"]
+        un = n if case["mask"]["kind"] == "all" else case["mask"]["len"] - case["mask"]["holes"]
+
+        def frame(h, w, u):
+            u = max(1, min(u, h * w))
+            mk = {"kind": "all"} if u >= h * w else self._run_mask_recipe(h * w, u)
+            return {**case, "h": h, "w": w, "mask": mk}
+
+        if iv:
+            if n > 6:
+                yield {**frame(2, 3, 5), "noise_exp": 0, "data_exp": 0, "background": "0", "noise_mixed": False}
+            yield {**case, "inv": None}
+            tot_reg = sum(p for p, f in zip(iv["params"], iv["reg"]) if f)
+            if not all(iv["reg"]):
+                keep = [(p, f) for p, f in zip(iv["params"], iv["reg"]) if f]
+                if keep:
+                    yield {**case, "inv": {**iv, "params": [p for p, _ in keep], "reg": [True] * len(keep)}}
+            if len(iv["params"]) > 1 and all(iv["reg"]):
+                yield {**case, "inv": {**iv, "params": [tot_reg], "reg": [True]}}
+            for num, den in ((1, 2), (3, 4), (7, 8), (15, 16)):
+                ps = [max(1, p * num // den) for p in iv["params"]]
+                if ps != iv["params"]:
+                    yield {**case, "inv": {**iv, "params": ps}}
+            if len(iv["params"]) == 1 and iv["params"][0] > 1:
+                yield {**case, "inv": {**iv, "params": [iv["params"][0] - 1]}}
+            for k in ("f_exp", "h_exp", "s_exp"):
+                if iv.get(k, 0):
+                    yield {**case, "inv": {**iv, k: 0}}
+                    if abs(iv[k]) > 1:
+                        yield {**case, "inv": {**iv, k: int(iv[k] / 2)}}
+            if iv.get("f_exp", 0) and iv.get("f_exp") == iv.get("h_exp"):
+                yield {**case, "inv": {**iv, "f_exp": 0, "h_exp": 0}}
+                yield {**case, "inv": {**iv, "f_exp": int(iv["f_exp"] / 2), "h_exp": int(iv["h_exp"] / 2)}}
+        else:
+            h, w = case["h"], case["w"]
+            for num, den in ((1, 2), (3, 4), (7, 8), (15, 16)):
+                if h > 1 and h * num // den >= 1 and h * num // den != h:
+                    yield frame(h * num // den, w, un * num // den)
+                if w > 1 and w * num // den >= 1 and w * num // den != w:
+                    yield frame(h, w * num // den, un * num // den)
+            if h > 1:
+                yield frame(h - 1, w, un - w)
+            if w > 1:
+                yield frame(h, w - 1, un - h)
+            if case["mask"]["kind"] != "all":
+                yield {**case, "mask": {"kind": "all"}}
+                if un > 1:
+                    yield frame(h, w, un // 2)
+                    yield frame(h, w, un - 1)
+        if Fraction(case.get("background", "0")) != 0:
+            yield {**case, "background": "0"}
+        for k in ("noise_exp", "data_exp"):
+            if case.get(k, 0):
+                yield {**case, k: 0}
+        if case.get("noise_mixed"):
+            yield {**case, "noise_mixed": False}
+        if case["mode"] != "slim":
+            yield {**case, "mode": "slim"}
+
+    def _shrink_hist(self, case):
+        sc = case["scenario"]
+        if case.get("read_order") is not None:
+            yield {**case, "read_order": None}
+        if sc == "edit":
+            rounds = case["rounds"]
+            if len(rounds) > 1:
+                for i in range(len(rounds)):
+                    yield {**case, "rounds": rounds[:i] + rounds[i + 1:]}
+            for i, r in enumerate(rounds):
+                if len(r) > 1:
+                    for j in range(len(r)):
+                        yield {**case, "rounds": rounds[:i] + [r[:j] + r[j + 1:]] + rounds[i + 1:]}
+            used = {e.get("pixel") for r in rounds for e in r}
+            has_bg = any(e["target"] == "background" for r in rounds for e in r)
+            for b in self._shrink_fit(case["base"]):
+                if b["mask"] != case["base"]["mask"]:
+                    diff = [i for i, (x, y) in enumerate(zip(b["mask"]["bits"], case["base"]["mask"]["bits"])) if x != y]
+                    if any(i in used for i in diff):
+                        continue
+                if b["background"] != case["base"]["background"] and has_bg:
+                    continue
+                c2 = {**case, "base": b}
+                try:
+                    if all(self._valid_state(s) for s in self._hist_states(c2)):
+                        yield c2
+                except Exception:
+                    continue
+        elif sc == "worlds":
+            for o in ([0, 1, 0], [1, 0, 1], [0, 1], [1, 0]):
+                if len(o) < len(case["order"]):
+                    yield {**case, "order": o}
+        elif sc == "preloads":
+            if len(case["setters"]) > 1:
+                for i in range(len(case["setters"])):
+                    yield {**case, "setters": case["setters"][:i] + case["setters"][i + 1:]}
+            if case.get("shared_settings"):
+                yield {**case, "shared_settings": False}
+        elif sc in ("decoy", "fault"):
+            inv = case["base"].get("inversion")
+            keep_inv = (sc == "fault" and case["fault"]["kind"] == "bad_inversion") or (inv is not None and inv["kind"] == "real")
+            for b in self._shrink_fit(case["base"]):
+                if keep_inv and b.get("inversion") is None:
+                    continue
+                if self._valid_state(b):
+                    yield {**case, "base": b}
+
+    def shrink(self, case):
+        kind = case.get("kind", "fit")
+        if kind == "big":
+            return self._shrink_big(case)
+        if kind == "hist":
+            return self._shrink_hist(case)
+        return self._shrink_fit(case)
+
+    def _theorems_fit(self, case):
         native = case["mode"] == "native"
         t = ["C08.a_background_offset", "C08.a_maps_masked" if native else "C08.a_maps_slim",
              "C08.a_signal_to_noise_clipped", "C08.a_reduced_chi_squared",
@@ -778,7 +1977,20 @@ class C08(PropertyCheck):
                   "C08.d_reduced_matrices", "C08.d_all_regularized_nothing_removed"]
         return t
 
+    def theorems_for(self, case):
+        kind = case.get("kind", "fit")
+        if kind == "big":
+            return self._theorems_fit({"mode": case["mode"], "inversion": case.get("inv")})
+        if kind == "hist":
+            out = []
+            for st in self._hist_states(case):
+                if st is not None:
+                    out += [t for t in self._theorems_fit(st) if t not in out]
+            return out
+        return self._theorems_fit(case)
+
     def sample_view(self, case):
+        # (large cases are recipes — shape, mask recipe, seed, exponents, block sizes — never arrays)
         return {k: v for k, v in case.items() if not k.startswith("_")}
 
 
